@@ -16,7 +16,7 @@ enum {
     SLU_VEV_RELEASE,       /* a=column released */
     SLU_VEV_DONE,          /* a=panel set DONE */
     SLU_VEV_THREAD_BEGIN, SLU_VEV_THREAD_END,
-    SLU_VEV_LBUSY,         /* a=jcol, b=bcol in, c=bcol out */
+    SLU_VEV_LBUSY,         /* a=jcol, b=bcol after pxgstrf_mark_busy_descends, p=lbusy[] (int_t, size n) */
     SLU_VEV_READ_BEGIN, SLU_VEV_READ_END,   /* a=jcol, b=fsupc, c=krep */
     SLU_VEV_WAIT_BEGIN, SLU_VEV_WAIT_END,   /* a=jcol, b=kcol */
     SLU_VEV_NSUPER,        /* a=jcol, b=new supernode number */
